@@ -1,12 +1,14 @@
 package clustersim
 
 import (
+	"bytes"
 	"context"
 	"errors"
 	"fmt"
 	"time"
 
 	"github.com/jamf/regatta/regattapb"
+	"github.com/lni/dragonboat/v4"
 	"google.golang.org/grpc/codes"
 	"google.golang.org/grpc/status"
 	"verif/sim/core"
@@ -134,6 +136,10 @@ type fwdOp struct {
 	rev      uint64 // revision the leader assigned (from the answer)
 	idxAtRet uint64 // the node's local leader index of the table right after the answer
 	idxErr   error
+	key      []byte // single-key put: the key, and what a local read of it on the node returned right after the answer
+	readVal  []byte
+	readOK   bool // the read itself succeeded
+	readHas  bool // ... and found the key
 }
 
 func (r *run) localLeaderIndex(n *Node, table string) (uint64, error) {
@@ -197,6 +203,21 @@ func (r *run) execFwd(st *Step) {
 			// no fake time passes between the answer and this look (a local state-machine lookup)
 			if n.up && n.gen == op.gen {
 				op.idxAtRet, op.idxErr = r.localLeaderIndex(n, tname)
+				if op.kind == "put" && op.idxErr == nil {
+					// read-your-writes by content, not only by index: the same instant, a local read of the key
+					op.key = r.kc.Key(st.K)
+					if at, err := n.engine.GetTable(tname); err == nil {
+						rctx, rcancel := ctxT(2 * time.Second)
+						resp, err := at.Range(rctx, &regattapb.RangeRequest{Table: []byte(tname), Key: op.key})
+						rcancel()
+						if err == nil {
+							op.readOK = true
+							if len(resp.Kvs) > 0 {
+								op.readHas, op.readVal = true, append([]byte(nil), resp.Kvs[0].Value...)
+							}
+						}
+					}
+				}
 			} else {
 				op.idxErr = errors.New("node went away")
 			}
@@ -239,6 +260,34 @@ func (r *run) checkForwarded() {
 			if op.idxAtRet < op.rev {
 				r.fail("C11", "acknowledged-before-applied", "acknowledged-before-applied:"+op.kind, "%s: acknowledged with revision %d, but right after the answer the node's own copy of the table is at leader index %d: a read on this node does not observe the write", what, op.rev, op.idxAtRet)
 				return
+			}
+			if op.kind == "put" && op.readOK {
+				// the read must show the key as the leader's log has it at the write's revision or at some
+				// later index (other writers may have overwritten or deleted it since) - never as it was before
+				if lid, ok := r.leaderTables[op.table]; ok {
+					lk := dragonboat.ShardKey{Cluster: "L", ShardID: lid}
+					end := uint64(len(r.w.u.Log("L", lid)))
+					explained, judged := false, false
+					for i := op.rev; i <= end; i++ {
+						m := r.modelAt(lk, i)
+						if m == nil {
+							break
+						}
+						judged = true
+						v, has := m.Get(op.key)
+						if has == op.readHas && (!has || bytes.Equal(v, op.readVal)) {
+							explained = true
+							break
+						}
+					}
+					if judged && !explained {
+						r.fail("C11", "acknowledged-not-readable", "acknowledged-not-readable:put", "%s: acknowledged with revision %d (node's leader index right after the answer: %d), but a local read of key %q on this node at that instant returned found=%v value %.40q - not the key's state at the write's revision nor at any later index of the leader's log", what, op.rev, op.idxAtRet, op.key, op.readHas, op.readVal)
+						return
+					}
+					if judged {
+						r.out.Probe("forwarded-put-read-back-checked")
+					}
+				}
 			}
 			if took > 0 {
 				r.out.Probe("forwarded-waited")
